@@ -145,6 +145,20 @@ def mk_term(op, a, b=None):
     return (op, ta, tb)
 
 
+ULT_MODE = [False]
+ULT = {}
+ULT_OF = {}
+
+
+class ult_mode(object):
+    def __enter__(self):
+        ULT_MODE[0] = True
+
+    def __exit__(self, *exc):
+        ULT_MODE[0] = False
+        return False
+
+
 class CS(object):
     """Boolean that is a conjunction 'every clause function is 0' (neg=False) or its negation."""
     __slots__ = ("clauses", "neg", "term")
@@ -183,7 +197,8 @@ def mk_cs(clauses, neg=False):
         acc = ONE
         for c in cl:
             acc = B.band(acc, B.bnot(c))
-            if acc is None:
+            if acc is None or acc[1] in ("os", "nos"):
+                acc = None
                 break
         if acc is not None:
             return W(1, bits=[B.bnot(acc) if neg else acc])
@@ -1020,17 +1035,16 @@ class Interp(object):
         if a.signed:
             return wtop(1)
         # a < b  <=> borrow out of a - b
-        if op == "Lt":
-            _, bo = w_sub(a, b)
-            return W(1, bits=[bo])
-        if op == "Ge":
-            _, bo = w_sub(a, b)
-            return W(1, bits=[B.bnot(bo)])
-        if op == "Gt":
-            _, bo = w_sub(b, a)
-            return W(1, bits=[bo])
-        _, bo = w_sub(b, a)
-        return W(1, bits=[B.bnot(bo)])
+        x, y, neg = (a, b, False) if op == "Lt" else ((a, b, True) if op == "Ge" else ((b, a, False) if op == "Gt" else (b, a, True)))
+        _, bo = w_sub(x, y)
+        if bo is None and ULT_MODE[0]:
+            # comparison-recognition mode only (harness.lex_order): "x < y" of two wide symbolic words becomes a named
+            # atom whose meaning is kept in ULT; nothing but pattern matching is done with it
+            kx, ky = tuple(x.all_bits()), tuple(y.all_bits())
+            nm = "ult#%d" % ULT.setdefault((kx, ky), len(ULT))
+            bo = B.atom(nm)
+            ULT_OF[bo] = (kx, ky)
+        return W(1, bits=[B.bnot(bo) if neg else bo])
 
     # ------------------------------------------------------------------ execution
     def call_body(self, body, args, st, env=None, depth=0, pc=()):
@@ -1093,6 +1107,10 @@ class Interp(object):
                 results.append(Outcome("return", st, pc, self.read_cell(st, fr.locals[0])))
                 return results
             elif k == "unreachable":
+                # the compiler's decision trees contain arms that earlier tests exclude: such a path is dead
+                from .harness import pc_status
+                if pc and pc_status(pc)[0] == "unsat":
+                    return results
                 raise Undecided("reached unreachable in %s" % fr.fn_path)
             elif k == "switch":
                 d = self.operand(fr, st, t["discr"])
